@@ -241,9 +241,21 @@ def encParent : Parent → String
 def encFields (fs : List (String × FVal)) : String :=
   ",".intercalate (fs.map fun (k, v) => encStr k ++ ":" ++ encStr v)
 
-def encObj (a : Answer) : String :=
+/-- every primitive call any of the object's templates could make (harness bookkeeping for the
+    two-phase oracle: which real primitives to evaluate) -/
+def callsOf (F : String) (avail : List String) (st : Store) (o : FbObj) : List PrimCall :=
+  let one (t : Option Template) : List PrimCall :=
+    (t.getD []).filterMap fun
+      | .lit _ => none
+      | .field n a c s => (o.fields.lookup n).map fun v => primOf F avail v a c s
+  one (o.messageTemplate st) ++ one (o.elseMessageTemplate st) ++ one (o.justificationTemplate st)
+
+def encCalls (F : String) (avail : List String) (st : Store) (o : FbObj) : String :=
+  encStr (String.join ((callsOf F avail st o).map tagOf))
+
+def encObj (st : Store) (a : Answer) : String :=
   let o := a.obj
-  s!"fb id={o.id} met={encBool o.met} status={o.status.text} raised={encExc a.raised} message={encOpt o.message} else={encOpt o.elseMessage} unused={encOpt o.unusedMessage} just={encOpt o.justification} title={encOpt o.title} label={encStr o.label} parent={encParent o.parent} fields={encFields o.fields}"
+  s!"fb id={o.id} met={encBool o.met} status={o.status.text} raised={encExc a.raised} message={encOpt (o.message st)} else={encOpt (o.elseMessage st)} unused={encOpt o.unusedMessage} just={encOpt (o.justification st)} title={encOpt (o.title st)} label={encStr o.label} parent={encParent o.parent} fields={encFields o.fields}"
 
 def encAVal : Option AVal → String
   | none => "pv -"
@@ -267,13 +279,15 @@ structure Sess where
 def stepOp (O : Oracle) (s : Sess) : SOp → Sess
   | .new sp =>
     let (w', a) := construct O s.w sp
-    { w := w', objs := (a.obj.id, a.obj) :: s.objs, out := encObj a :: s.out }
+    { w := w', objs := (a.obj.id, a.obj) :: s.objs,
+      out := (encObj w'.store a ++ " calls=" ++ encCalls s.w.fmtId s.w.avail w'.store a.obj) :: s.out }
   | .handle id =>
     match s.objs.lookup id with
     | none => { s with out := "nohandle" :: s.out }
     | some o =>
       let (w', a) := handle O s.w o
-      { w := w', objs := (id, a.obj) :: s.objs, out := encObj a :: s.out }
+      { w := w', objs := (id, a.obj) :: s.objs,
+        out := (encObj w'.store a ++ " calls=" ++ encCalls s.w.fmtId s.w.avail w'.store a.obj) :: s.out }
   | .override c fs =>
     let (st, e) := s.w.store.override c fs
     { s with w := { s.w with store := st }, out := ("ov raised=" ++ encExc e) :: s.out }
